@@ -12,7 +12,7 @@ import itertools
 import random
 
 from .. import tlc, tlaval
-from ..common import CPUS, chunks, pmap
+from ..common import CPUS, MachineryError, chunks, pmap
 from .. import project as P
 
 MC_CFG = """SPECIFICATION Spec
@@ -30,7 +30,8 @@ INVARIANT ImplAgrees
 
 
 def _bridging(loc):
-    return len(loc["parts"]) > 1
+    parts = loc["parts"][::-1] if loc.get("strand") == -1 else loc["parts"]
+    return any(a[0] > b[0] for a, b in zip(parts, parts[1:]))
 
 
 def _observe(case):
@@ -62,9 +63,11 @@ def _features(case, query):
     genes = case["genes"]
     if any(_bridging(g) for g in genes):
         feats.append("gene_spans_origin")
+    if any(len(g["parts"]) > 1 and not _bridging(g) or len(g["parts"]) > 2 for g in genes):
+        feats.append("gene_in_several_exons")
     if _bridging(query["q"]):
         feats.append("query_spans_origin")
-    plain = [(g["parts"][0][0], g["parts"][0][1]) for g in genes if not _bridging(g)]
+    plain = [(g["parts"][0][0], g["parts"][0][1]) for g in genes if len(g["parts"]) == 1]
     for i, (s1, e1) in enumerate(plain):
         for j, (s2, e2) in enumerate(plain):
             if i != j and s1 <= s2 and e2 <= e1:
@@ -87,10 +90,13 @@ def run(ctx):
     ctx.model(mc, "Genes_MC oracle meta-properties", vacuity=["PickLoc", "PickLayout"])
     neg = tlc.run("Genes_MC", NEG_CFG, ctx.workdir, tag="_neg", timeout=1200)
     ctx.expect_violation(neg, "ImplAgrees", "bisect-and-early-exit lookup shape misses shadowed genes (P8 on the model)")
-    universe = {}
-    for state in tlaval.read_dump(mc.dump_path, keep=lambda text: "stage = 1" in text):
+    universe, spliced = {}, {}
+    for state in tlaval.read_dump(mc.dump_path, keep=lambda text: "stage = 1" in text or "stage = 3" in text):
         key = (state["R"]["L"], state["R"]["circ"])
-        universe.setdefault(key, []).append({"parts": [list(p) for p in state["a"]["parts"]], "strand": 1})
+        (universe if state["stage"] == 1 else spliced).setdefault(key, []).append(
+            {"parts": [list(p) for p in state["a"]["parts"]], "strand": 1})
+    if not spliced:
+        raise MachineryError("vacuous model run: no spliced gene location")
     cases = []
     exhaustive_up_to = 6 if ctx.quick else 7
     for key in sorted(universe):
@@ -106,8 +112,19 @@ def run(ctx):
             layouts = [rng.sample(locs, rng.choice([2, 3])) for _ in range(1500 if ctx.quick else 6000)]
             sampled = True
         layouts += [rng.sample(locs, 4) for _ in range(600 if ctx.quick else 8000)]
+        # genes in several exons: alone, paired with every arc (short records), and in sampled layouts of three
+        exons = sorted(spliced.get(key, []), key=lambda x: (len(x["parts"]), x["parts"]))
+        with_exons = [[gene] for gene in exons]
+        if length <= exhaustive_up_to:
+            with_exons += [[gene, other] for gene in exons for other in locs]
+        else:
+            with_exons += [[rng.choice(exons), rng.choice(locs)] for _ in range(1500 if ctx.quick else 6000)]
+        with_exons += [[rng.choice(exons), rng.choice(exons + locs), rng.choice(locs)] for _ in range(600 if ctx.quick else 8000)]
+        with_exons = [layout for layout in with_exons if len({str(g["parts"]) for g in layout}) == len(layout)]
+        first_spliced = len(layouts)
+        layouts += with_exons
         for idx, layout in enumerate(layouts):
-            is_sampled = sampled or len(layout) == 4
+            is_sampled = sampled or len(layout) == 4 or (idx >= first_spliced and len(layout) > 1)
             genes = []
             for gene in layout:
                 gene = dict(gene)
@@ -115,7 +132,8 @@ def run(ctx):
                 if gene["strand"] == -1:
                     gene["parts"] = gene["parts"][::-1]
                 genes.append(gene)
-            qs = queries if not is_sampled or len(queries) <= 80 else rng.sample(queries, 80)
+            limit = 24 if idx >= first_spliced else 80
+            qs = queries if not is_sampled or len(queries) <= limit else rng.sample(queries, limit)
             cases.append({"L": length, "circ": circ, "genes": genes, "queries": qs, "sampled": is_sampled,
                           "shuffle": rng.randrange(1, 10 ** 6) if idx % 2 else 0})
     # larger random records
@@ -124,7 +142,7 @@ def run(ctx):
         circ = rng.random() < 0.6
         genes = []
         for _ in range(rng.randrange(4, 13)):
-            size = rng.randrange(1, 14)
+            size = rng.choice([rng.randrange(1, 14), rng.randrange(1, 14), rng.randrange(14, 28)])
             start = rng.randrange(0, length)
             strand = rng.choice([1, -1])
             if start + size <= length:
@@ -135,6 +153,14 @@ def run(ctx):
                     parts.reverse()
             else:
                 parts = [[length - size, length]]
+            if len(parts) == 1 and size >= 3 and rng.random() < 0.25:
+                # two exons around an intron: the gene spans more of the record than it has bases
+                first = rng.randrange(1, size - 1)
+                second = rng.randrange(first + 1, size)
+                begin = parts[0][0]
+                parts = [[begin, begin + first], [begin + second, begin + size]]
+                if strand == -1:
+                    parts.reverse()
             gene = {"parts": parts, "strand": strand}
             if all(g["parts"] != gene["parts"] or g["strand"] != gene["strand"] for g in genes):
                 genes.append(gene)
@@ -160,7 +186,7 @@ def run(ctx):
         events = [ev for sub in pmap(_observe_many, chunks(part, CPUS * 4)) for ev in sub]
         res = ctx.validate("Genes_Trace", events, None, min_per_shard=100)
         # rejections come back as "op/clause@k": turn each into a failure naming the exact query
-        ctx.failures = [f for f in ctx.failures if f.get("op") != "?"]
+        ctx.failures = [f for f in ctx.failures if set(f.get("input", {})) != {"event"}]
         by_event = {ev["id"]: ev for ev in events}
         for ident in (cases[len(cases) // 5]["id"], cases[-1]["id"]):
             if ident in by_event:
@@ -199,7 +225,8 @@ def run(ctx):
         ctx.sample(samples[ident])
     ctx.exhaustive = True
     ctx.rule = ("TLC enumerates all simple and origin-spanning arcs of the listed record lengths (linear and circular); the harness "
-                "forms every layout of 1-3 genes (4 genes and longer records: seeded samples), random strands and insertion orders, "
+                "forms every layout of 1-3 genes (4 genes and longer records: seeded samples), every gene in several exons (one intron; an "
+                "exon cut by the origin plus another exon) alone and next to every arc, sampled layouts of three with such genes, random strands and insertion orders, "
                 "and asks for every arc as query with and without with_overlapping; non-trivial layout = contains an origin-spanning "
                 "gene or a gene nested in / starting with another")
     ctx.assumptions += ["exhaustive for layouts of <= 3 genes on records up to the stated length; sampled beyond"]
